@@ -311,9 +311,11 @@ where
     // shows at least N fractional digits
     let ns = r.usize(12);
     let d = || format!("print_sci mode={} base={} x={}*{}^{} N={}", Rm::M.name(), base, s, base, e, ns);
+    let mut labels: Vec<&'static str> = vec![];
     m.check("print_sci", &format!("{}/b{}", Rm::M.name(), base), Some(h ^ 0x5c1 ^ (ns as u64) << 32), &d, || {
         let outs = catch(|| f.sci(ns)).or_else(|p| fail("unexpected_panic", p))?;
         for (label, plain, withp, db, sb, marker, prefix) in outs {
+            labels.push(label);
             let (v, _) = parse_sci(&plain, db, sb, marker, prefix).ok_or(()).or_else(|_| fail("print_format", format!("{} printed {:?}, not of the form d.ddd{}exp", label, plain, marker)))?;
             ensure!(v == x, "print_value", "{} printed {:?} which denotes {} instead of the value", label, plain, show_q(&v));
             let (v2, unit) = parse_sci(&withp, db, sb, marker, prefix).ok_or(()).or_else(|_| fail("print_format", format!("{} with precision {} printed {:?}, not of the form d.ddd{}exp", label, ns, withp, marker)))?;
@@ -324,6 +326,10 @@ where
         }
         Ok(())
     });
+    // which formats were really read back (a format that is silently not dispatched must show as missing coverage)
+    for l in labels {
+        m.note(&format!("fmt:{}/b{}", l, base));
+    }
 }
 
 fn base_case<Rm: ModeTag, const B: Word, const NB: Word>(m: &mut Mon, r: &mut Rng) {
@@ -487,7 +493,7 @@ fn main() {
         thorough_cases: 8_000_000,
         rule: "Parsing: sentences of the documented grammar for bases 2, 8, 10, 16, 3, 36 (sign, integer/fraction parts of 0..11 digits with underscores and mixed case, optional trailing dot, exponent markers e/E/b/B/o/O/h/H/@ with signed decimal exponents, hex-float 0x..p.. for base 2) compared with the exact written value and digit count; arbitrary/mutated strings must not panic. Printing: floats of 1..300 digits and exponents -80..40 (4 bases x 6 modes): the text without a precision option must denote the value exactly (own reference reader) and parse back equal; with {:.N} it must denote the value rounded to N fractional digits under the type's mode. Base changes (7 base pairs x 6 modes, exponents in the exact, small (<= 38) and ln/exp (up to +-400, thorough +-6000) branches of convert_base, with_base and with_base_and_precision): rounding contract against the exact rational, and the target precision rule NewB^p' <= B^p.",
         assumptions: &["a hex-float with an empty integer part or a trailing sign inside the fraction is outside the documented forms (no-panic only)", "ulp is taken from the true value"],
-        required: &[("parse/b2", false), ("parse/b10", false), ("parse/b16", false), ("print/", false), ("with_base/", false), ("arbitrary", false)],
+        required: &[("parse/b2", false), ("parse/b10", false), ("parse/b16", false), ("print/", false), ("with_base/", false), ("arbitrary", false), ("fmt:{:e}/b10", false), ("fmt:{:E}/b3", false), ("fmt:{:b}/b2", false), ("fmt:{:x}/b2", false), ("fmt:{:X}/b2", false), ("fmt:{:x}/b16", false), ("fmt:{:X}/b16", false)],
         case,
         selftest: Some(selftest),
         panic_finding: None,
